@@ -17,6 +17,7 @@ def lty(ty, structs):
     if ty == "R": return "R"
     if ty == "U": return "Unit"
     if ty.startswith("L("): return "List (%s)" % lty(ty[2:-1], structs)
+    if ty.startswith("O("): return "Option (%s)" % lty(ty[2:-1], structs)
     if ty.startswith("S:"): return structs[ty[2:]]["lean"]
     if ty.startswith("X:"): return ty[2:]          # an opaque Lean type named by the spec
     if ty.startswith("T("): return " × ".join("(%s)" % lty(x, structs) for x in split_top(ty[2:-1]))
@@ -43,6 +44,7 @@ class FlowEmit:
             segs = e[1]
             if len(segs) == 1:
                 if segs[0] in ("true", "false"): return segs[0], "B"
+                if segs[0] == "None": return "none", "O(?)"
                 if segs[0] not in env: die("unknown variable %s" % segs[0])
                 return env[segs[0]][0], env[segs[0]][1]
             p = "::".join(segs)
@@ -113,11 +115,17 @@ class FlowEmit:
                 a, at = self.ex(e[2][0], env); b, bt = self.ex(e[2][1], env)
                 if at != "N" or bt != "N": die("cmp::max/min on non-integers")
                 return "(%s %s %s)" % ("max" if p.endswith("max") else "min", a, b), "N"
+            if p == "Some" and len(e[2]) == 1:
+                a, at = self.ex(e[2][0], env)
+                return "(some %s)" % a, "O(%s)" % at
             die("unsupported call %s" % p)
         if k == "struct":
             nm = e[1][-1]
             if nm not in self.structs: die("unknown struct %s" % nm)
             vals = {f: self.ex(v, env)[0] for f, v in e[2]}
+            for f, fty in self.structs[nm]["fields"]:
+                if fty.startswith("O(") and vals.get(f) == "none":
+                    vals[f] = "(none : %s)" % lty(fty, self.structs)
             st = self.structs[nm]
             if sorted(vals) != sorted(f for f, _ in st["fields"]): die("struct literal fields differ from the spec")
             return "({ %s } : %s)" % (", ".join("%s := %s" % (f, vals[f]) for f, _ in st["fields"]), st["lean"]), "S:" + nm
@@ -217,7 +225,7 @@ class FlowEmit:
         if not stmts:
             if tail is not None:
                 # a trailing expression of a value-returning function = return
-                if tail[0] in ("if", "block", "for"):
+                if tail[0] in ("if", "block", "for", "while", "loop"):
                     return self.block([("expr", tail)], None, env, M, ind)
                 if tail[0] == "mcall" and self.is_effect(tail):
                     return self.block([("expr", tail)], None, env, M, ind)
@@ -228,7 +236,7 @@ class FlowEmit:
         k = s[0]
         skip_once = getattr(self, "_skip_once", False)
         self._skip_once = False
-        if self.spec.get("effect_calls") and not skip_once:
+        if (self.spec.get("effect_calls") or self.spec.get("hoist_index")) and not skip_once:
             wrappers = []
             if k == "let": s2 = ("let", s[1], s[2], self.hoist(s[3], env, wrappers))
             elif k == "assign": s2 = ("assign", s[1], s[2] if s[2][0] != "index" else ("index", s[2][1], self.hoist(s[2][2], env, wrappers)), self.hoist(s[3], env, wrappers))
@@ -236,7 +244,10 @@ class FlowEmit:
             elif k == "expr" and s[1][0] == "if": s2 = ("expr", ("if", self.hoist(s[1][1], env, wrappers), s[1][2], s[1][3]))
             elif k == "expr" and s[1][0] == "mcall" and self.match_effect_call(s[1]) is not None:
                 self.hoist(s[1], env, wrappers); s2 = None      # a call for its effect only
-            elif k == "expr" and s[1][0] not in ("block", "for", "macro"): s2 = ("expr", self.hoist(s[1], env, wrappers))
+            elif k == "expr" and s[1][0] == "mcall" and s[1][1] == ("path", ["self"]) and ("self." + s[1][2]) in self.spec.get("update_calls", {}): s2 = s
+            elif k == "expr" and s[1][0] == "mcall" and s[1][2] == "set" and len(s[1][3]) == 2:
+                s2 = ("expr", ("mcall", s[1][1], "set", [self.hoist(s[1][3][0], env, wrappers), self.hoist(s[1][3][1], env, wrappers)]))
+            elif k == "expr" and s[1][0] not in ("block", "for", "macro", "while", "loop"): s2 = ("expr", self.hoist(s[1], env, wrappers))
             else: s2 = s
             if wrappers:
                 depth = sum(1 for o, c in wrappers if c)
@@ -326,6 +337,10 @@ class FlowEmit:
             if op != "=":
                 t = "(%s %s %s)" % (v, op[:-1], t)
             return [pad + "let %s := %s;" % (v, t)] + self.block(rest, tail, env, M, ind)
+        if k == "break":
+            if getattr(self, "loop_M", None) is None: die("break outside a `loop`")
+            if [x[0] for x in self.muts(env)] != [x[0] for x in self.loop_M]: die("break with loop-local mutable variables in scope")
+            return [pad + "Flow.ret (Sum.inr %s)" % self.tup([env[x[0]][0] for x in self.loop_M])]
         if k == "return":
             if s[1] is None:
                 return [pad + "Flow.ret " + self.retval(None, "U", env)]
@@ -350,6 +365,30 @@ class FlowEmit:
                     return [pad + "let %s := %s ++ [%s];" % (v, v, t)] + self.block(rest, tail, env, M, ind)
                 if e[2] == "clear":
                     return [pad + "let %s := [];" % v] + self.block(rest, tail, env, M, ind)
+            if e[0] == "mcall" and e[1] == ("path", ["self"]) and ("self." + e[2]) in self.spec.get("update_calls", {}):
+                tpl = self.spec["update_calls"]["self." + e[2]]
+                a0 = e[3][0]
+                while a0[0] in ("ref", "paren"): a0 = a0[1]
+                key = self.lhs_key(a0, env)
+                v, vty, m = env[key]
+                if not m: die("update of immutable %s" % key)
+                text = tpl.replace("{0}", v)
+                for k2 in re.findall(r"\{(self\.[a-z_]+)\}", text): text = text.replace("{%s}" % k2, env[k2][0])
+                return [pad + "let %s := %s;" % (v, text)] + self.block(rest, tail, env, M, ind)
+            if e[0] == "macro" and e[1] == "panic":
+                return [pad + "Flow.panic"]
+            if e[0] == "mcall" and e[2] == "set" and len(e[3]) == 2 and e[1][0] in ("field", "path"):
+                # FixedBitSet::set / IntVector::set as an index assignment
+                return self.block([("assign", "=", ("index", e[1], e[3][0]), e[3][1])] + rest, tail, env, M, ind)
+            if e[0] in ("while", "loop"):
+                Mh = self.muts(env)
+                call = self.fuel_loop(e, env, Mh)
+                inner = [pad + "  (" + call + ")"]
+                if not rest and tail is None and [x[0] for x in Mh] == [x[0] for x in M]:
+                    return inner
+                names = self.tup([x[1] for x in Mh])
+                return [pad + "Flow.bind"] + inner + [pad + "  fun %s =>" % ("_" if not Mh else names)] + \
+                    self.block(rest, tail, env, M, ind + 1)
             if e[0] in ("if", "block", "for"):
                 Mh = self.muts(env)                 # the mutable variables in scope here
                 if e[0] == "block":
@@ -428,6 +467,24 @@ class FlowEmit:
             else:
                 die("bad effect kind")
             return ("path", [tmp])
+        if self.spec.get("hoist_index"):
+            idx = None
+            if e[0] == "index": idx = (e[1], e[2])
+            elif e[0] == "mcall" and e[2] == "get" and len(e[3]) == 1: idx = (e[1], e[3][0])
+            if idx is not None:
+                if in_branch: die("index read inside a conditional expression")
+                i2 = self.hoist(idx[1], env, wrappers, in_branch)
+                v, vty = self.ex(idx[0], env)
+                if vty.startswith("L("):
+                    i, ity = self.ex(i2, env)
+                    self.ntmp = getattr(self, "ntmp", 0) + 1
+                    tmp = "t%d_" % self.ntmp
+                    env[tmp] = (tmp, vty[2:-1], False)
+                    wrappers.append((["(match %s[%s]? with" % (v, i), "| none => Flow.panic", "| some %s =>" % tmp], [")"]))
+                    return ("path", [tmp])
+        eu = self.spec.get("update_calls", {})
+        if e[0] == "mcall" and e[1] == ("path", ["self"]) and ("self." + e[2]) in eu:
+            die("update call in expression position")
         if e[0] == "if":
             return ("if", self.hoist(e[1], env, wrappers, in_branch), self.hoist_check(e[2], env), None if e[3] is None else self.hoist_check(e[3], env))
         if e[0] in ("block", "for", "closure"):
@@ -463,10 +520,67 @@ class FlowEmit:
         """what `return e` yields: for a `&mut self` method returning (), the self state"""
         st = [env["self." + f][0] for f, _ in self.spec.get("self_mut", [])] + [env[p][0] for p in self.spec.get("mut_params", [])]
         if self.spec.get("returns") == "self":
-            return self.tup(st)
-        if st:       # a `&mut self` method with a value: the value and the new state
-            return "(%s, %s)" % (t, self.tup(st))
-        return "(%s)" % t
+            v = self.tup(st)
+        elif st:       # a `&mut self` method with a value: the value and the new state
+            v = "(%s, %s)" % (t, self.tup(st))
+        else:
+            v = "(%s)" % t
+        return "(Sum.inl %s)" % v if getattr(self, "loop_M", None) is not None else v
+
+    def fuel_loop(self, e, env, Mh):
+        """`while c { body }` / `loop { body }` -> a function recursive on fuel (spec['fuel']: Lean text of the bound;
+        out of fuel = the real code does not terminate = panic)"""
+        fuel = self.spec.get("fuel") or die("while/loop needs a fuel bound in the spec")
+        for key in re.findall(r"\{(self\.[a-z_]+)\}", fuel): fuel = fuel.replace("{%s}" % key, env[key][0])
+        self.nloop += 1
+        lname = "%s_loop%d" % (self.spec["lean"], self.nloop)
+        st_names = self.tup([x[1] for x in Mh])
+        stty = self.tupty(Mh)
+        outer_rho = self.rho
+        if e[0] == "while":
+            body = e[2]
+            wr = []
+            benv = dict(env)
+            cond = self.hoist(e[1], benv, wr) if self.spec.get("hoist_index") or self.spec.get("effect_calls") else e[1]
+            c, ct = self.ex(cond, benv)
+            if ct != "B": die("while condition is not bool")
+            depth = sum(1 for o, cl in wr if cl)
+            body_lines = self.block(body[1], body[2], benv, Mh, 3 + depth)
+            core = ["  " * (2 + depth) + "if %s then" % c, "  " * (3 + depth) + "Flow.bind ("] + body_lines + \
+                   ["  " * (3 + depth) + ") fun st' => %s FIXED fuel_ st'" % lname, "  " * (2 + depth) + "else Flow.cont %s" % st_names]
+            d = 0; op, cl = [], []
+            for o, c2 in wr:
+                op += ["  " * (2 + d) + x for x in o]
+                if c2:
+                    cl = ["  " * (2 + d) + x for x in c2] + cl; d += 1
+            inner_lines = op + core + cl
+        else:
+            body = e[1]
+            saved = (getattr(self, "loop_M", None), self.rho)
+            self.loop_M = Mh
+            self.rho = "(%s) ⊕ (%s)" % (outer_rho, stty)
+            try:
+                body_lines = self.block(body[1], body[2], dict(env), Mh, 3)
+            finally:
+                self.loop_M, self.rho = saved
+            inner_lines = ["    match ((", ] + body_lines + [
+                "    ) : Flow ((%s) ⊕ (%s)) (%s)) with" % (outer_rho, stty, stty),
+                "    | Flow.ret (Sum.inl r_) => Flow.ret r_",
+                "    | Flow.ret (Sum.inr st') => Flow.cont st'",
+                "    | Flow.cont st' => %s FIXED fuel_ st'" % lname,
+                "    | Flow.panic => Flow.panic"]
+        text = "\n".join(inner_lines)
+        closed = [(v2[0], v2[1]) for k2, v2 in env.items() if not v2[2] and re.search(r"(?<![A-Za-z0-9_.])%s(?![A-Za-z0-9_])" % re.escape(v2[0]), text)]
+        closed = list(dict.fromkeys(closed))
+        sig = " ".join(["(%s : %s)" % (n, t) for n, t in self.fixed] +
+                       ["(%s : %s)" % (n, lty(t, self.structs)) for n, t in closed if (n, t) not in self.fixed])
+        argnames = " ".join([n for n, _ in self.fixed] + [n for n, t in closed if (n, t) not in self.fixed])
+        text = text.replace("FIXED", argnames)
+        d = ["def %s %s : Nat → %s → Flow (%s) (%s)" % (lname, sig, stty, outer_rho, stty),
+             "  | 0, _ => Flow.panic",
+             "  | fuel_ + 1, %s =>" % (st_names if Mh else "_"), text]
+        self.loops.append("\n".join(d))
+        return "%s %s (%s) %s" % (lname, argnames, fuel, st_names)
 
     def for_loop(self, e, env, Mh):
         pat, it, body = e[1], e[2], e[3]
